@@ -371,7 +371,7 @@ Qed.
 Definition den_names (tb : symtab) (ch : chain) : list str :=
   match denote tb (st_scope tb) ch with
   | DProc id => [id]
-  | DUnknown => [last_of ch]
+  | DUnknown => [unresolved_name tb ch]
   | DVar => []
   | DType => []
   end.
